@@ -19,6 +19,7 @@ func init() {
 		Assumptions: []string{"sort.Slice sorts by the given less function", "status.Error(f) builds a status with the given code"},
 		Run:         runC01,
 		Controls: []Control{
+			{Name: "update-converts-every-error", File: "pkg/resource/collection.go", Old: "\t\tif s, ok := status.FromError(err); ok {\n\t\t\treturn nil, status.Errorf(s.Code(), \"%v %v\", s.Message(), id)\n\t\t}\n\t\treturn nil, err", New: "\t\ts := status.Convert(err)\n\t\treturn nil, status.Errorf(s.Code(), \"%v %v\", s.Message(), id)", Expect: "R01.18"},
 			{Name: "more-update-paths-delegates-to-update-mask", File: "pkg/resource/opt.go", Old: "\treturn WithMoreUpdateMask(&fieldmaskpb.FieldMask{Paths: paths})", New: "\treturn WithUpdateMask(&fieldmaskpb.FieldMask{Paths: paths})", Expect: "R01.16"},
 			{Name: "collection-save-stores-the-request", File: "pkg/resource/collection.go", Old: "\t\tfunc(msg proto.Message) {\n\t\t\tchangeTime = writeRequest.updateTime(c.clock)", New: "\t\tfunc(saved proto.Message) {\n\t\t\tchangeTime = writeRequest.updateTime(c.clock)", Expect: "R01.17"},
 			{Name: "pullid-drops-its-options", File: "pkg/resource/collection.go", Old: "\tchanges := c.Pull(ctx, opts...)\n", New: "\tchanges := c.Pull(ctx)\n", Expect: "R01.13"},
@@ -71,6 +72,8 @@ func runC01(c *an.Ctx) {
 	r0113(c, "R01.13")
 	c.Min("R01.13", 40)
 	r0114(c, "R01.14")
+	r0118(c, "R01.18")
+	c.Min("R01.18", 1)
 	r0116(c, "R01.16")
 	c.Min("R01.16", 4)
 	r0117as(c, "R01.17")
@@ -1826,4 +1829,37 @@ func r0117as(c *an.Ctx, rule string) {
 		}
 	}
 	c.Count("save_callbacks", n)
+}
+
+// r0118: an error that is not a gRPC status passes through a write unchanged. Update decorates the STATUS errors it
+// returns with the id; an error a caller's own precondition function returned ("the error returned from fn will be
+// returned from the update call") is handed back as it is. status.Convert turns every error into a status - a plain
+// error becomes a new Unknown one - so the resource package does not use it on an error it returns.
+func r0118(c *an.Ctx, rule string) {
+	n := 0
+	var bad ssa.Instruction
+	for _, fn := range c.Prog.FuncsIn(resPkg) {
+		if strings.HasSuffix(c.Prog.RelFile(fn.Pos()), "_test.go") {
+			continue
+		}
+		an.Instrs(fn, func(in ssa.Instruction) {
+			call, ok := in.(*ssa.Call)
+			if !ok {
+				return
+			}
+			switch an.CalleeName(call) {
+			case "google.golang.org/grpc/status.FromError":
+				n++
+			case "google.golang.org/grpc/status.Convert":
+				n++
+				bad = in
+			}
+		})
+	}
+	pos := token.NoPos
+	if bad != nil {
+		pos = bad.Pos()
+	}
+	c.Check(bad == nil && n > 0, rule, "pkg/resource|errors that are not statuses are returned as they are", pos, fmt.Sprintf("%d status inspections, all with FromError's ok", n),
+		"status.Convert is applied to an error the package returns: a plain error from a caller's precondition function comes back as a new Unknown status instead of the error itself")
 }
